@@ -27,7 +27,7 @@ ASSUMPTIONS = [
     "statements)",
     "audited discards (constructs the code base deliberately does not model) are listed in rules/C02.py:DISCARDS",
 ]
-TECHNIQUE = 'abstract interpretation of grammar actions to terms + shape fixpoint; regex structure analysis'
+TECHNIQUE = 'abstract interpretation of grammar actions to terms + shape fixpoint; regex structure analysis; presence-scenario evaluation of action terms (every absent/present combination of optional parts); language probes of the QUOTED_STRING regex'
 
 VALUE_TOKENS = ('LOWERCASE_IDENTIFIER', 'UPPERCASE_IDENTIFIER', 'NUMBER', 'NEGATIVENUMBER', 'NUMBER64',
                 'NEGATIVENUMBER64', 'HEX_STRING', 'BIN_STRING', 'QUOTED_STRING')
